@@ -33,6 +33,11 @@ CLAIMED["C08"] = ("§3 C08",
     "Decides for both formatters (cue/format v1, internal/pretty v2), ast.Walk, astutil.Apply and the parser: every dispatcher covers every implementor of the switched interface; every child and payload field of every cue/ast node type is used onward (emitted/visited/built) by the case that handles the node; every openComments is closed on every path; format.Source prints what it parsed with comments; cue fmt writes only after success and only if bytes changed. It does not decide idempotence nor that the emitted layout re-parses to the same tree.",
     "whitespace/comma/layout decisions are value-level; resolution metadata fields are excepted by name")
 
+CLAIMED["C09"] = ("§3 C09",
+    "call-graph SCC condensation of package cue/parser modulo the nesting-guard functions, loop analysis for iteratively deepened trees, dominance of panics by the bailout flag, table agreement of the three escape alphabets (constants read from go/types)",
+    "Decides the parser's bailout discipline (every panic sets p.panicking first or is a reviewed unreachable assertion; entry points install the recover first), that recursion and iterative tree deepening are bounded by the nesting guard (two remaining unbounded loops are recorded as known findings), and that the escape alphabets and hex digit counts of literal.appendEscapedRune, literal.unquoteChar and scanner.scanEscape agree. It does not decide position containment nor that quoting an arbitrary string unquotes to the original.",
+    "hash counts and multi-line indentation are value-level; assertion panics are excepted by function with an unreachability argument")
+
 # properties not claimed (yet) -> reason
 NOT_APPLICABLE = {
     "C03": "value-level: the content is the cell values of the bound-simplification decision table over numbers; no shape rule separates a correct table from an off-by-one (DESIGN.md §4)",
